@@ -618,6 +618,52 @@ def stage_rayleigh(ctx):
             ctx.violation("mie:rayleigh-g", "asymmetry parameter is not ~0 in the Rayleigh limit", data)
 
 
+def stage_media_series(ctx):
+    """the same particle (same absolute index, same radius) in a series of media with the wavelength chosen so that the
+    size parameter k*r is bit-identical (lambda = n_medium * lambda_0), computed one after the other in one process: each
+    has to follow the Rayleigh formula for ITS relative index (x <= 0.01) and, at x ~ 1-6, to agree with the one-sphere
+    cluster theory.  A memo of the expansion coefficients keyed on (size parameter, particle index) alone fails here."""
+    import numpy as np
+    from holopy.scattering import Sphere, Multisphere, calc_cross_sections
+    rng = ctx.subrng("media")
+    for kcase in range(ctx.n(6, 40)):
+        lam0 = rng.choice([0.5, 0.4, 0.66])
+        small = kcase % 2 == 0
+        x = loguni(rng, 2e-3, 1e-2) if small else rng.uniform(1.0, 6.0)
+        n = complex(rng.uniform(1.6, 2.2), rng.choice([0.0, loguni(rng, 1e-3, 0.3)]))
+        r = x * lam0 / (2 * np.pi)
+        media = [1.0, 1.25, 1.5, 1.0][::rng.choice([1, -1])]
+        for nm in media:
+            wl = nm * lam0
+            s = Sphere(n=(n if n.imag else n.real), r=r, center=(0, 0, 0))
+            cscat, cabs, cext, g = [float(v) for v in calc_cross_sections(s, nm, wl, (1, 0)).values]
+            ctx.explored += 1
+            ctx.count("media-series:%s" % ("rayleigh" if small else "vs-multisphere"))
+            ctx.nontriv(("media", small, nm, kcase))
+            data = dict(kind="media", n=n, nm=nm, wl=wl, r=r, x=x, series=media, cross_sections=[cscat, cabs, cext, g])
+            if small:
+                m = n / nm
+                al = (m * m - 1) / (m * m + 2)
+                area = np.pi * r * r
+                cs_ray, ca_ray = 8.0 / 3.0 * x ** 4 * abs(al) ** 2 * area, 4.0 * x * al.imag * area
+                data["rayleigh"] = [cs_ray, ca_ray]
+                if not STAT.see("media:rayleigh:cscat", abs(cscat - cs_ray), TOL_RAY * cs_ray):
+                    ctx.violation("mie:rayleigh-cscat:media-series", "cscat does not follow the Rayleigh formula for a particle computed "
+                                  "after the same particle in another medium (same size parameter)", data)
+                if n.imag and not STAT.see("media:rayleigh:cabs", abs(cabs - ca_ray), TOL_RAY * ca_ray):
+                    ctx.violation("mie:rayleigh-cabs:media-series", "cabs does not follow the Rayleigh formula for a particle computed "
+                                  "after the same particle in another medium (same size parameter)", data)
+            else:
+                with warnings.catch_warnings():
+                    warnings.simplefilter("ignore")
+                    ms4 = [float(v) for v in calc_cross_sections(s, nm, wl, (1, 0), theory=Multisphere(qeps1=1e-9, qeps2=1e-9)).values]
+                data["multisphere"] = ms4
+                err = max(abs(a - b) / cext for a, b in zip(ms4[:3], (cscat, cabs, cext)))
+                if not STAT.see("media:ms-vs-mie", err, TOL_MS):
+                    ctx.violation("ms:one-sphere-vs-mie:media-series", "Multisphere(one sphere) and Mie cross sections differ for a particle "
+                                  "computed after the same particle in another medium (same size parameter)", data)
+
+
 def stage_multisphere(ctx):
     """one-sphere cluster vs single-sphere theory; optical theorem and assembly for Multisphere"""
     import numpy as np
@@ -741,6 +787,8 @@ def stage_quadrature_large(ctx):
             continue    # reported by the other stages under their own keys
         nco = Mie()._scat_coeffs(s, k, nm).shape[1]
         npts = max(nco + 8, 300)
+        if kcase % 2 == 0:
+            npts = max(npts, rng.choice([2100, 2600, 4200]))      # a few thousand angles in one call (an image-sized detector)
         cq_, gq = gl_cscat_g(s, nm, wl, k, npts)
         ctx.explored += 1
         ctx.count("quad-large")
@@ -815,6 +863,7 @@ def run(ctx):
     timed("rayleigh", stage_rayleigh, ctx)
     timed("layered-small", stage_layered_small, ctx)
     timed("layered-corners", stage_layered_corners, ctx)
+    timed("media-series", stage_media_series, ctx)
     timed("multisphere", stage_multisphere, ctx)
     timed("multisphere-large", stage_multisphere_large, ctx)
     timed("quadrature-large", stage_quadrature_large, ctx)
